@@ -122,6 +122,47 @@ theorem flows_order_independent (G : LGraph) (src : Nat) (tr : List Nat) (s₁ s
     ∀ n, n ∈ flowsOf G s₁ ↔ n ∈ flowsOf G s₂ :=
   fun n => ⟨flows_maximal_of_ebe G src tr s₂ s₁ h₂ e₂ h₁.1 n, flows_maximal_of_ebe G src tr s₁ s₂ h₁ e₁ h₂.1 n⟩
 
+/-! ### The repaired key: adding what the successors depend on to the `seen` key makes the
+    traversal complete for lasso-free paths (proposed repair of F14 / C01a; also the criterion the
+    driver uses to attribute a missed flow to that defect) -/
+
+/-- with the full key the successors are key-determined -/
+theorem succ_keyFull_det (G : LGraph) (src : Nat) (a b : Item) (h : keyFull G a = keyFull G b) :
+    succ G src a = succ G src b := by
+  simp only [keyFull, Prod.mk.injEq] at h
+  simp [succ, stepSpec, h.1, h.2]
+
+/-- every traversal order of the visitor with the full key reports every sink configuration at the
+    end of a lasso-free valid path: `EntryBeforeExit` is not needed any more -/
+theorem ideal_complete (G : LGraph) (src : Nat) (tr : List Nat) (s : State Item KeyFull)
+    (hs : Steps (keyFull G) (succ G src) ⟨[root src tr], [], []⟩ s) (hq : s.queue = [])
+    (a : Item) (hpath : LassoFreePathTo G src tr a) (hsink : reported G a = true) :
+    a.node ∈ flowsOfIdeal G s := by
+  have hdet : ∀ x y, keyFull G x = keyFull G y → ∀ x' ∈ succ G src x, ∃ y' ∈ succ G src y,
+      keyFull G y' = keyFull G x' := by
+    intro x y hxy x' hx'
+    rw [succ_keyFull_det G src x y hxy] at hx'
+    exact ⟨x', hx', rfl⟩
+  have hp : IReach (succ G src) [root src tr] a := hpath
+  have hreach := IReach.reach_poss (keyFull G) hp
+  have hv := (visited_eq_closure (keyFull G) (succ G src) hdet (roots := [root src tr]) (seen0 := [])
+    (by simp) hs hq (keyFull G a)).mpr (by simpa using hreach)
+  simp only [List.mem_map] at hv
+  obtain ⟨w, hw, hkw⟩ := hv
+  simp only [keyFull, Prod.mk.injEq] at hkw
+  have hcore := hkw.1
+  have hnode : w.node = a.node := by
+    have := congrArg Item.node hcore
+    simpa [Item.core] using this
+  have hct : w.ct = a.ct := by
+    have := congrArg Item.ct hcore
+    simpa [Item.core] using this
+  have hrep : reported G w = true := by
+    simp only [reported, hnode, hct] at hsink ⊢
+    exact hsink
+  simp only [flowsOfIdeal, List.mem_map, List.mem_filter]
+  exact ⟨w, ⟨hw, hrep⟩, hnode⟩
+
 /-! ### Negation witnesses (closed counterexamples in the model, replayed on the real tool) -/
 
 namespace F1
